@@ -79,6 +79,20 @@ class PrintInterp(PlaceInterp):
             out = self.text(n0)
             del self.calls[n0:]
             return out
+        if name == 'get' and len(e.get('args', [])) == 1:
+            recv = deref(self.val(e['recv'], env))
+            if isinstance(recv, str):
+                r = deref(self.val(e['args'][0], env))
+                if isinstance(r, tuple) and len(r) == 3 and r[0] == 'range' and isinstance(r[1], int) and isinstance(r[2], int):
+                    # str::get(range): None unless the range lies inside the text on character boundaries
+                    a, b = r[1], r[2] + 1
+                    raw = recv.encode()
+                    okb = lambda i: 0 <= i <= len(raw) and (i == len(raw) or (raw[i] & 0xC0) != 0x80)
+                    if a <= b and okb(a) and okb(b):
+                        return ('ctor', 'core::option::Option::Some', (raw[a:b].decode(),))
+                    return ('ctor', 'core::option::Option::None')
+                raise Unanalysable('str::get with an index the evaluator does not model')
+            return super()._mcall(dict(e, recv=self._bindnode(recv, env, e['recv'])), env)
         if name == 'split' and len(e.get('args', [])) == 1:
             recv = deref(self.val(e['recv'], env))
             sep = deref(self.val(e['args'][0], env))
@@ -95,6 +109,9 @@ class PrintInterp(PlaceInterp):
                 body = self._impl_for_prim(dv, name)
                 if body is not None:
                     return self.apply_fn(body, [dv] + [self.val(a, env) for a in e.get('args', [])])
+            from .places import _has_call
+            if not _has_call(e['recv']):
+                return super()._mcall(e, env)          # a plain place: keep it a place (`self.trailing.take()` writes through it)
             return super()._mcall(dict(e, recv=self._bindnode(recv, env, e['recv'])), env)
         return super()._mcall(e, env)
 
